@@ -36,7 +36,7 @@ type compileOp struct {
 	Text  string
 	Rules []MRuleDef
 	// what the "mixed history" twins (one builder, one pool) do with this text
-	MixKind  int // 0 full, 1 incremental, 2 removal of MixNames (the text is not used)
+	MixKind  int // 0 full, 1 incremental, 2 removal of MixNames, 3 clear (pool: ClearPoolRules, builder twin: a fresh builder); 2 and 3 do not use the text
 	MixNames []string
 }
 
@@ -87,6 +87,9 @@ func (g *G) genCompileOp(nNames int, ver *int, valid *[]*compileOp) *compileOp {
 
 func (g *G) mixFor(op *compileOp, nNames int) {
 	op.MixKind = g.Intn(3)
+	if g.Pct(12) {
+		op.MixKind = 3
+	}
 	if op.MixKind == 2 {
 		for id := 1; id <= nNames+1; id++ {
 			if g.Pct(40) {
@@ -373,6 +376,11 @@ func RunW3Compile(plan, sched *simrt.Source, trace bool) *RunOut {
 			case 1:
 				st.mixOK[0], st.mixPanic[0] = guard(func() error { return rbM.BuildRuleWithIncremental(text) })
 				st.mixOK[1], st.mixPanic[1] = guard(func() error { return pM.UpdatePooledRulesIncremental(text) })
+			case 3:
+				// clear: the pool has an operation for it; for the builder twin "no rules" is a fresh builder
+				rbM = builder.NewRuleBuilder(context.NewDataContext())
+				st.mixOK[0] = true
+				st.mixOK[1], st.mixPanic[1] = guard(func() error { pM.ClearPoolRules(); return nil })
 			default:
 				names := op.MixNames
 				st.mixOK[0], st.mixPanic[0] = guard(func() error { return rbM.RemoveRules(names) })
@@ -528,7 +536,7 @@ func RunW3Compile(plan, sched *simrt.Source, trace bool) *RunOut {
 		}
 		// mixed histories: the builder and the pool were given the same sequence of full builds,
 		// incremental builds and removals, so they must agree on the verdict and on the installed set
-		mk := [...]string{"full", "incremental", "remove"}[op.MixKind]
+		mk := [...]string{"full", "incremental", "remove", "clear"}[op.MixKind]
 		for k, pv := range st.mixPanic {
 			if pv != "" {
 				add("compile-panic", [...]string{"builder", "pool"}[k]+"-"+mk, txNames[op.Class], fmt.Sprintf("%s: mixed history (%s): panicked: %s", where, mk, firstLine(pv)))
